@@ -20,7 +20,7 @@ def expectedSkeleton : List (String × List String) := [
   ("rfbStartOnHoldClient", ["pthread_create"]),
   ("rfbMarkRegionAsModified", ["rfbGetClientIterator", "rfbClientIteratorNext", "LOCK updateMutex", "TSIGNAL updateCond", "UNLOCK updateMutex", "rfbReleaseClientIterator"]),
   ("rfbScheduleCopyRegion", ["rfbGetClientIterator", "rfbClientIteratorNext", "LOCK updateMutex", "TSIGNAL updateCond", "UNLOCK updateMutex", "rfbReleaseClientIterator"]),
-  ("rfbNewFramebuffer", ["rfbGetClientIterator", "rfbClientIteratorNext", "break", "rfbIncrClientRef", "LOCK sendMutex", "rfbReleaseClientIterator", "LOCK cursorMutex", "free", "LOCK updateMutex", "TSIGNAL updateCond", "UNLOCK updateMutex", "UNLOCK sendMutex", "rfbDecrClientRef", "free", "UNLOCK cursorMutex"]),
+  ("rfbNewFramebuffer", ["rfbGetClientIterator", "rfbClientIteratorNext", "break", "rfbIncrClientRef", "LOCK sendMutex", "rfbReleaseClientIterator", "LOCK cursorMutex", "free", "LOCK updateMutex", "TSIGNAL updateCond", "UNLOCK updateMutex", "UNLOCK sendMutex", "rfbDecrClientRef", "free", "UNLOCK cursorMutex", "rfbMarkRectAsModified"]),
   ("rfbShutdownServer", ["rfbShutdownSockets", "pipewrite listener", "pthread_join", "rfbGetClientIteratorWithClosed", "rfbClientIteratorNext", "rfbCloseClient", "rfbClientIteratorNext", "rfbClientConnectionGone", "pthread_join", "rfbClientConnectionGone", "rfbClientConnectionGone", "rfbReleaseClientIterator"]),
   ("rfbScreenCleanup", ["rfbGetClientIteratorWithClosed", "rfbClientIteratorNext", "rfbClientIteratorNext", "rfbClientConnectionGone", "rfbReleaseClientIterator", "free", "TINI_MUTEX cursorMutex", "free", "free", "free"]),
   ("rfbRunEventLoop", ["pthread_create", "return", "return"]),
